@@ -11,7 +11,7 @@ import (
 // libNoEffect: library functions modelled natively, none of which writes modelled heap state.
 var libNoEffect = map[string]bool{
 	"fmt.Sprintf": true, "fmt.Sprint": true, "fmt.Errorf": true, "fmt.Fprintf": true, "fmt.Fprint": true, "fmt.Sprintln": true,
-	"errors.New": true, "proto.Size": true, "proto.Clone": true, "strings.Repeat": true, "strings.Join": true,
+	"errors.New": true, "proto.Size": true, "proto.Clone": true, "binary.littleEndian.Uint64": true, "strings.Repeat": true, "strings.Join": true,
 	"sync.Mutex.Lock": true, "sync.Mutex.Unlock": true, "sync.RWMutex.Lock": true, "sync.RWMutex.Unlock": true,
 	"sync.RWMutex.RLock": true, "sync.RWMutex.RUnlock": true,
 	"strings.Builder.String": true, "strings.Builder.WriteString": true, "strings.Builder.WriteByte": true,
@@ -53,6 +53,30 @@ func (tr *Tr) libCall(key string, f *ssa.Function, args []Value, resT types.Type
 		return If{Tag: iv.Tag, Val: tr.cloneObj(st, pt.Elem(), iv.Val, 0)}, true
 	case "slices.Sort":
 		tr.libSort(f, args, st)
+		return nil, true
+	case "binary.littleEndian.Uint64":
+		// T-lib: decoding is a function of the 8 bytes; le64(PutUint64(v)) == v
+		b := tr.asSl(args[len(args)-1])
+		tr.oblige(st, "bounds", "", nil, sLe("8", b.Len), "binary.LittleEndian.Uint64: slice shorter than 8 bytes")
+		return Sc{T: tr.le64(st, b)}, true
+	case "binary.littleEndian.PutUint64":
+		b := tr.asSl(args[len(args)-2])
+		v := tr.asSc(args[len(args)-1], nil).T
+		tr.oblige(st, "bounds", "", nil, sLe("8", b.Len), "binary.LittleEndian.PutUint64: slice shorter than 8 bytes")
+		name := "E$uint8"
+		h := tr.heapVar(st, name, arr2(sortInt))
+		tr.fresh++
+		inner := smtName(fmt.Sprintf("put64!%d", tr.fresh))
+		tr.sc.declare(inner, "() (Array Int Int)")
+		tr.sc.declare("|le64|", "((Array Int Int) Int) Int")
+		tr.sc.fact(fmt.Sprintf("(forall ((k Int)) (! (=> (not (and (<= %s k) (< k (+ %s 8)))) (= (select %s k) (select (select %s %s) k))) :pattern ((select %s k))))", b.Off, b.Off, inner, h, b.Arr, inner))
+		tr.sc.fact(fmt.Sprintf("(= (|le64| %s %s) %s)", inner, b.Off, v))
+		tr.assumptions["T-lib encoding/binary: Uint64(PutUint64(v)) == v; decoding depends only on the 8 bytes read"] = true
+		sym := tr.nameTerm(name, arr2(sortInt), sStore(h, b.Arr, inner))
+		if tr.freshRefs[b.Arr] {
+			tr.allocParent[sym] = h
+		}
+		tr.setHeapVar(st, name, arr2(sortInt), sym)
 		return nil, true
 	}
 	return nil, false
@@ -211,4 +235,43 @@ func (tr *Tr) cloneObj(st *State, t types.Type, ref string, depth int) string {
 		}
 	}
 	return sIte(sEq(ref, "0"), "0", nref)
+}
+
+func (tr *Tr) le64(st *State, b Sl) string {
+	tr.sc.declare("|le64|", "((Array Int Int) Int) Int")
+	h := tr.heapVar(st, "E$uint8", arr2(sortInt))
+	t := "(|le64| " + sSel(h, b.Arr) + " " + b.Off + ")"
+	key := "le64:" + t
+	if !tr.typeFactDone[key] && !strings.Contains(t, "?") {
+		tr.typeFactDone[key] = true
+		tr.sc.fact(fmt.Sprintf("(and (<= 0 %s) (<= %s 18446744073709551615))", t, t))
+	}
+	return t
+}
+
+// sumPayload: sumpay(s, k) = sum over the first k entries of len(e.Data) (0 for a nil entry): recursive definition over
+// the entries array and the Data-length heap; range consequence as for sumsize (lemma pay_range).
+func (tr *Tr) sumPayload(st *State, et types.Type, s Sl, k string) string {
+	tr.sumPayDecl()
+	h := tr.heapVar(st, elemPrefix(et), arr2(sortInt))
+	if _, ok := tr.heapKind["F$raftpb.Entry.Data#len"]; !ok {
+		tr.heapKind["F$raftpb.Entry.Data#len"] = "int:0:2147483648"
+	}
+	dl := tr.heapVar(st, "F$raftpb.Entry.Data#len", arr1(sortInt))
+	return "(|sumpl| " + sSel(h, s.Arr) + " " + s.Off + " " + k + " " + dl + ")"
+}
+
+func (tr *Tr) sumPayDecl() {
+	if tr.sc.declared["|sumpl|"] {
+		return
+	}
+	tr.sc.declare("|sumpl|", "((Array Int Int) Int Int (Array Int Int)) Int")
+	dlen := "(ite (= (select a (+ o (- k 1))) 0) 0 (select d (select a (+ o (- k 1)))))"
+	tr.sc.fact("(forall ((a (Array Int Int)) (o Int) (k Int) (d (Array Int Int))) (! (=> (<= k 0) (= (|sumpl| a o k d) 0)) :pattern ((|sumpl| a o k d))))")
+	tr.sc.fact("(forall ((a (Array Int Int)) (o Int) (k Int) (d (Array Int Int))) (! (=> (> k 0) (= (|sumpl| a o k d) (+ (|sumpl| a o (- k 1) d) " + dlen + "))) :pattern ((|sumpl| a o k d))))")
+	if !tr.lemmaProof {
+		// consequence of lemma pay_range for k <= 2^31 and slice lengths <= 2^31 (A-arith)
+		tr.sc.fact("(forall ((a (Array Int Int)) (o Int) (k Int) (d (Array Int Int))) (! (=> (and (<= 0 k) (<= k 2147483648) (forall ((e Int)) (and (<= 0 (select d e)) (<= (select d e) 2147483648)))) (and (<= 0 (|sumpl| a o k d)) (<= (|sumpl| a o k d) 4611686018427387904))) :pattern ((|sumpl| a o k d))))")
+	}
+	tr.assumptions["sumpay: recursive definition of the prefix sum of payload lengths (two definitional axioms); range fact is lemma pay_range, proved by the engine"] = true
 }
